@@ -253,6 +253,14 @@ func genScenario(rng *prng.R, idx int, kind string) *scen {
 			sc.Static[h] = sc.static[h][0]
 		}
 	}
+	if kind == "seq" && rng.Chance(1, 5) { // nested redirection CDN -> CDN (followed only by the inner http client)
+		w.hosts["cdn-hop.example"] = &hostSrv{name: "cdn-hop.example", kind: kCDN, role: "cdn", realmHost: "auth-cdn.example"}
+		for _, h := range w.hosts {
+			if h.kind == kCDN && h.name != "cdn-hop.example" {
+				h.hopTo = "cdn-hop.example"
+			}
+		}
+	}
 	w.hosts["auth-cdn.example"] = &hostSrv{name: "auth-cdn.example", kind: kAuth, role: "cdn-auth", noPost: rng.Bool()}
 
 	// gate / storm scenarios: host #0 must serve, in the mode the transition starts from
@@ -285,7 +293,7 @@ func genScenario(rng *prng.R, idx int, kind string) *scen {
 	for _, h := range sc.regHosts {
 		s := w.hosts[h]
 		sc.Hosts = append(sc.Hosts, hostDesc{Host: h, Role: s.role, Auth: [...]string{"none", "basic", "bearer"}[s.auth], Mode: modeNames[s.mode.Load()], CDN: s.cdn, Realm: s.realmHost,
-			Extra: fmt.Sprintf("cdn.headForbidden=%v cdn.singleRangeOnly=%v", w.hosts[s.cdn].headForbidden, w.hosts[s.cdn].singleOnly)})
+			Extra: fmt.Sprintf("cdn.headForbidden=%v cdn.singleRangeOnly=%v cdn.nestedRedirectTo=%q", w.hosts[s.cdn].headForbidden, w.hosts[s.cdn].singleOnly, w.hosts[s.cdn].hopTo)})
 	}
 
 	// CRI requests seen by the keychain before the blob is resolved
@@ -643,6 +651,9 @@ func runScenario(r *vf.Run, drv *gstate, sc *scen, rng *prng.R) {
 			role = h.role
 		}
 		r.Count("requests", 1)
+		if strings.Contains(q.URL, "hop=1") {
+			r.Count(fmt.Sprintf("requests_after_nested_redirect[%s,status=%d,followed=%v]", q.Path, q.Status, q.Followed), 1)
+		}
 		r.Count(fmt.Sprintf("requests[%s->%s]", q.Path, role), 1)
 		r.Distinct("request_shapes", fmt.Sprintf("%s %s->%s status=%d secrets=%d", q.Method, q.Path, role, q.Status, own))
 		if own > 0 {
